@@ -60,6 +60,10 @@ def main():
             txt = p.stdout.decode("latin-1")
             viol = [l for l in txt.splitlines() if l.startswith("VIOLATION")]
             reasons = [l.strip()[:300] for l in txt.splitlines() if l.startswith("  " + c + ":")][:5]
+            prev = out["checks"].get(c + ":" + tier)
+            if prev:
+                out.setdefault("history", []).append({"check": c + ":" + tier, "when": prev.get("when"), "caught": prev.get("caught"),
+                                                      "exit": prev.get("exit"), "violations": prev.get("violations")})
             out["checks"][c + ":" + tier] = {"exit": p.returncode, "violations": len(viol), "wall_s": round(time.time() - t0, 1),
                                              "reasons": reasons, "caught": p.returncode == 1 and bool(viol), "tail": txt[-500:],
                                              "when": time.strftime("%Y-%m-%d %H:%M"), "applied_to": repo}
